@@ -377,6 +377,72 @@ func streamC07(env *runEnv) {
 			env.emit("isolation", fmt.Sprintf("bulk-tunnel-%d-of-%d", i, nb), v)
 		}
 	}
+	// one client stops reading while its host keeps sending: the gateway's writes to it stall for good;
+	// other tunnels (both transports) are set up and served meanwhile
+	for _, stalledTr := range []string{"ws", "legacy"} {
+		stuck := newTagBackend([]byte(strings.Repeat("<to-the-client-that-does-not-read>", 2000000)))
+		stuck.piece = 65536
+		hostS, portS := splitHostPort(stuck.addr)
+		verdict := "own-bytes-only"
+		a, errA := openTunnel(srv.inst, tunnelScript{transport: stalledTr, id: fmt.Sprintf("{c07-stalled-%s-%d}", stalledTr, env.seed)})
+		if errA != nil {
+			verdict = "ERR:" + errA.Error()
+		} else {
+			for _, p := range [][]byte{
+				packet(ptHandshake, handshakeBody(1, 0, 0, 2)),
+				packet(ptTunnelCreate, tunnelCreateBody(0, fmt.Sprintf("ok|stalled|%s", stuck.addr), true)),
+				packet(ptTunnelAuth, tunnelAuthBody("pc")),
+				packet(ptChannelCreate, channelCreateBody(hostS, portS)),
+			} {
+				a.send(p)
+				if stalledTr == "legacy" {
+					time.Sleep(15 * time.Millisecond)
+				}
+				a.recv(2 * time.Second)
+			}
+			time.Sleep(700 * time.Millisecond) // a is not read from any more; the relay towards it is blocked by now
+			for _, tr := range []string{"ws", "legacy"} {
+				other := newTagBackend([]byte("<hello-from-the-other-host>"))
+				hostO, portO := splitHostPort(other.addr)
+				b, errB := openTunnel(srv.inst, tunnelScript{transport: tr, id: fmt.Sprintf("{c07-beside-stalled-%s-%s-%d}", stalledTr, tr, env.seed)})
+				if errB != nil {
+					verdict = "other-tunnel-not-accepted-" + tr
+					other.close()
+					continue
+				}
+				var got []byte
+				for i, p := range [][]byte{
+					packet(ptHandshake, handshakeBody(1, 0, 0, 2)),
+					packet(ptTunnelCreate, tunnelCreateBody(0, fmt.Sprintf("ok|beside|%s", other.addr), true)),
+					packet(ptTunnelAuth, tunnelAuthBody("pc")),
+					packet(ptChannelCreate, channelCreateBody(hostO, portO)),
+				} {
+					b.send(p)
+					if tr == "legacy" {
+						time.Sleep(15 * time.Millisecond)
+					}
+					if _, err := b.recv(3 * time.Second); err != nil && verdict == "own-bytes-only" {
+						verdict = fmt.Sprintf("%s-tunnel-gets-no-answer-to-request-%d-while-a-%s-client-does-not-read", tr, i, stalledTr)
+					}
+				}
+				for dl := time.Now().Add(2 * time.Second); time.Now().Before(dl) && len(got) < len(other.sends); {
+					m, err := b.recv(500 * time.Millisecond)
+					if err == nil && len(m) > 10 && int(m[0])|int(m[1])<<8 == ptData {
+						got = append(got, m[10:]...)
+					}
+				}
+				if verdict == "own-bytes-only" && string(got) != string(other.sends) {
+					verdict = fmt.Sprintf("%s-tunnel-gets-no-host-data-while-a-%s-client-does-not-read", tr, stalledTr)
+				}
+				b.close()
+				other.close()
+			}
+			a.close()
+		}
+		stuck.close()
+		env.count("c07.stalled-client." + strings.SplitN(verdict, "-", 2)[0])
+		env.emit("isolation", "other-tunnels-while-a-"+stalledTr+"-client-does-not-read", verdict)
+	}
 	// legacy pairing: IN attaches to the OUT with the same connection id only
 	for k := 0; k < 6; k++ {
 		b := newTagBackend([]byte("<pair-host>"))
